@@ -44,6 +44,10 @@ EXTENDS Integers, Sequences, FiniteSets, TLC, Json
 CONSTANTS RefU,          \* universe of references: sequence of [st, name, kind, file]
           MaxRefs,       \* number of declared references <= MaxRefs
           Styles,        \* styles of the command line that are explored
+          Vias,          \* how the declarations reach the workflow graph: "literal" (the loader rewrites them to the
+                         \* absolute spelling), "variable" (the producer's name comes from a %(variable)s: the loader
+                         \* leaves the reference alone and it arrives in the spelling it was written in, relative for a
+                         \* producer of the consumer's stage), "override" (declared under override.<platform>: never rewritten)
           FullUsage,     \* TRUE: every usage of a reference; FALSE: one occurrence in the preferred spelling
           Faults,        \* TRUE: also the invalid inputs (a declared reference that is not used, an undeclared one)
           Quoting,       \* function i :> j: the file that :output reference i reads CONTAINS the relative spelling of
@@ -105,9 +109,10 @@ VARIABLES decl,      \* declared references in declaration order (indices into R
           extra,     \* the undeclared reference that occurs (0 = none)
           phase,     \* "declaring" | "resolved"
           style,
+          via,       \* how the declarations reach the graph (see Vias); the result must not depend on it
           args,      \* the argument string
           out        \* the resolved argument string
-vars == <<decl, usage, fault, extra, phase, style, args, out>>
+vars == <<decl, usage, fault, extra, phase, style, via, args, out>>
 
 (* ---------------------------------------------------------------------- *)
 (* the command line.  Elements: <<"lit", tokens>> or <<"occ", i, spelling>>.  The occurrences are listed  *)
@@ -179,32 +184,32 @@ Sequential(s, d) == SeqFrom(s, d, 1)
 (* ---------------------------------------------------------------------- *)
 (* actions                                                                  *)
 Init == /\ decl = <<>> /\ usage = <<>> /\ fault = "none" /\ extra = 0 /\ phase = "declaring"
-        /\ style = "none" /\ args = <<>> /\ out = <<>>
+        /\ style = "none" /\ via = "none" /\ args = <<>> /\ out = <<>>
 
 Declare(i, u) == /\ phase = "declaring" /\ Len(decl) < MaxRefs /\ i \notin Range(decl) /\ u \in Usages(i)
                  /\ decl' = Append(decl, i) /\ usage' = Append(usage, u)
-                 /\ UNCHANGED <<fault, extra, phase, style, args, out>>
+                 /\ UNCHANGED <<fault, extra, phase, style, via, args, out>>
 (* invalid input 1: a :ref / :output reference is declared but does not occur *)
 DeclareUnused(i) == /\ Faults /\ phase = "declaring" /\ Len(decl) < MaxRefs /\ i \notin Range(decl)
                     /\ Substituted(i) /\ fault = "none"
                     /\ decl' = Append(decl, i) /\ usage' = Append(usage, <<>>) /\ fault' = "unused"
-                    /\ UNCHANGED <<extra, phase, style, args, out>>
-Resolve(sty) == /\ phase = "declaring" /\ decl # <<>> /\ sty \in Styles
-                /\ fault = "none" \/ sty = "plain"
-                /\ phase' = "resolved" /\ style' = sty
-                /\ args' = Text(decl, usage, 0, sty)
-                /\ out' = Exact(args', decl)
-                /\ UNCHANGED <<decl, usage, fault, extra>>
+                    /\ UNCHANGED <<extra, phase, style, via, args, out>>
+Resolve(sty, v) == /\ phase = "declaring" /\ decl # <<>> /\ sty \in Styles /\ v \in Vias /\ via' = v
+                   /\ (fault = "none" \/ (sty = "plain" /\ v = "literal"))
+                   /\ phase' = "resolved" /\ style' = sty
+                   /\ args' = Text(decl, usage, 0, sty)
+                   /\ out' = Exact(args', decl)
+                   /\ UNCHANGED <<decl, usage, fault, extra>>
 (* invalid input 2: a reference that is not declared occurs in the command line *)
 ResolveUndeclared(x) == /\ Faults /\ phase = "declaring" /\ decl # <<>> /\ fault = "none"
                         /\ x \notin Range(decl) /\ Substituted(x) /\ Len(decl) < MaxRefs
-                        /\ phase' = "resolved" /\ style' = "plain" /\ fault' = "undeclared" /\ extra' = x
+                        /\ phase' = "resolved" /\ style' = "plain" /\ via' = "literal" /\ fault' = "undeclared" /\ extra' = x
                         /\ args' = Text(decl, usage, x, "plain")
                         /\ out' = Exact(args', decl)
                         /\ UNCHANGED <<decl, usage>>
 Next == \/ \E i \in U : \E u \in {<<>>, <<"rel">>, <<"abs">>, <<"rel", "abs">>, <<"abs", "rel">>, <<"rel", "rel">>, <<"abs", "abs">>} : Declare(i, u)
         \/ \E i \in U : DeclareUnused(i)
-        \/ \E sty \in {"plain", "opt", "path"} : Resolve(sty)
+        \/ \E sty \in {"plain", "opt", "path"}, v \in {"literal", "variable", "override"} : Resolve(sty, v)
         \/ \E x \in U : ResolveUndeclared(x)
 Spec == Init /\ [][Next]_vars
 
@@ -235,21 +240,29 @@ CleanFault == fault # "none" => SingleUse
 (* ---------------------------------------------------------------------- *)
 RefJson(k) == LET i == decl[k] IN
    [i |-> i, st |-> RefU[i].st, name |-> RefU[i].name, kind |-> RefU[i].kind, method |-> Method(i), file |-> FileOf(i),
+    rep |-> RefU[i].rep, last |-> RefU[i].last,
     rel |-> Rel(i), absolute |-> Abs(i), val |-> ValTok[i], usage |-> usage[k],
     quotes |-> IF i \in DOMAIN Quoting THEN Rel(Quoting[i]) ELSE <<>>]
-CaseJson == [t |-> "case", decl |-> [k \in 1..Len(decl) |-> RefJson(k)], style |-> style, fault |-> fault,
+CaseJson == [t |-> "case", decl |-> [k \in 1..Len(decl) |-> RefJson(k)], style |-> style, via |-> via, fault |-> fault,
              extra |-> IF extra = 0 THEN <<>> ELSE Str(extra, "abs"),
              args |-> args, expected |-> out, sequential |-> Sequential(args, decl), verdict |-> Verdict]
 EmitCase == (Emit /\ phase = "resolved" /\ CleanFault) => PrintT(ToJson(CaseJson))
 ASSUME Emit => PrintT(ToJson([t |-> "universe", refs |-> [i \in U |-> [i |-> i, st |-> RefU[i].st, name |-> RefU[i].name,
-                                                                      kind |-> RefU[i].kind, file |-> RefU[i].file, val |-> ValTok[i],
+                                                                      kind |-> RefU[i].kind, file |-> RefU[i].file, rep |-> RefU[i].rep,
+                                                                      last |-> RefU[i].last, val |-> ValTok[i],
                                                                       quotes |-> IF i \in DOMAIN Quoting THEN Rel(Quoting[i]) ELSE <<>>]]]))
 
 (* ---------------------------------------------------------------------- *)
 (* universes selected by the generated cfg files.  Names: A, BA (A is a suffix), B-A, x.A (dash / dot before *)
 (* the suffix), AB and A0 (A is a prefix: harmless for a correct AND for the sequential algorithm), the same  *)
 (* names in both stages.                                                                                      *)
-MkF(st, name, kind, file) == [st |-> st, name |-> name, kind |-> kind, file |-> file]
+(* rep / last: the producer is a repeating component ("yes") or not; last = number of its most recent repetition *)
+(* (-1: it has not produced anything yet).  The value of name:output (no file part) is the stdout of the         *)
+(* producer -- of its MOST RECENT repetition (highest number) for a repeating one --, the empty text when there  *)
+(* is none yet ("it will be generated").  The spec keeps values opaque; these fields tell the driver what to     *)
+(* put on disk.                                                                                                   *)
+MkR(st, name, kind, file, rp, last) == [st |-> st, name |-> name, kind |-> kind, file |-> file, rep |-> rp, last |-> last]
+MkF(st, name, kind, file) == MkR(st, name, kind, file, "no", 0)
 Mk(st, name, kind) == MkF(st, name, IF kind = "reff" THEN "ref" ELSE kind,
                           IF kind \in {"reff", "out"} THEN <<"out", ".", "txt">> ELSE <<>>)
 nA == <<"A">>
@@ -278,13 +291,25 @@ fDir == <<"outputs", "/">>
 fDot == <<".", "/", "out", ".", "txt">>
 fDbl == <<"sub", "/", "/", "x", ".", "txt">>
 fUp == <<"sub", "/", "..", "/", "out", ".", "txt">>
-fGlob == <<"out", ".", "*">>
+fGlob == <<"out", ".", "tx", "*">>       \* matches out.txt only (there is an out.stdout next to it)
 RefUPaths == << MkF(1, nA, "ref", fDir), MkF(0, nA, "ref", fDir), MkF(1, nA, "ref", fDot), MkF(1, nBA, "ref", fDbl),
                 MkF(0, nA, "ref", fUp), MkF(1, nA, "ref", fGlob),
                 MkF(1, nA, "out", fDot), MkF(0, nBA, "out", fDot), MkF(1, nA, "out", fUp), MkF(0, nA, "out", fDbl),
                 MkF(1, nBA, "out", fGlob),
                 MkF(1, nA, "copy", fDir), MkF(0, nA, "copy", <<"*", ".", "txt">>),
                 Mk(1, nA, "ref"), Mk(1, nA, "reff"), Mk(1, nA, "out") >>
+(* name:output without a file part: plain producers (run / not yet run) and repeating producers whose newest   *)
+(* repetition is 0, 9, 10, 100 (the engine keeps the five newest streams/<n>.stdout) or that have none yet        *)
+nR0 == <<"R", "0">>
+nR9 == <<"R", "9">>
+nR10 == <<"R", "1", "0">>
+nR100 == <<"R", "1", "0", "0">>
+nRn == <<"R", "n">>
+nQ == <<"Q">>
+RefUStdout == << MkF(1, nA, "out", <<>>), MkF(0, nA, "out", <<>>), MkR(0, nQ, "out", <<>>, "no", -1),
+                 MkR(0, nR0, "out", <<>>, "yes", 0), MkR(0, nR9, "out", <<>>, "yes", 9), MkR(0, nR10, "out", <<>>, "yes", 10),
+                 MkR(1, nR100, "out", <<>>, "yes", 100), MkR(0, nRn, "out", <<>>, "yes", -1),
+                 MkR(0, nR10, "ref", <<>>, "yes", 10), Mk(1, nA, "ref") >>
 RefUSix == << Mk(1, nA, "ref"), Mk(0, nA, "ref"), Mk(1, nBA, "ref"), Mk(0, nBA, "ref"), Mk(1, nA, "out"), Mk(0, nA, "out") >>
 RefUWide == << Mk(1, nA, "ref"), Mk(0, nA, "ref"), Mk(1, nBA, "ref"), Mk(0, nBA, "ref"),
                Mk(1, nBdA, "ref"), Mk(0, nxA, "ref"), Mk(1, nxA, "ref"), Mk(1, nAB, "ref"), Mk(0, nA0, "ref"),
